@@ -24,6 +24,7 @@ impl DbDocument for Task {
         map.insert("end_time".to_string(), json!(self.end_time));
         map.insert("hooks".to_string(), json!(self.hooks.clone()));
         map.insert("timestamp".to_string(), json!(self.timestamp));
+        map.insert("err".to_string(), json!(self.err.clone()));
         Ok(map)
     }
 }
